@@ -66,6 +66,51 @@ Theorem C06_merge :
 Proof. exact (fun T O => merge_spec O). Qed.
 Print Assumptions C06_merge.
 
+(* "the disjoint union of its inputs with indices shifted by the running vertex count", in closed form: an element of the
+   result is an element of some input k with every index moved by the number of vertices of the inputs before k, and
+   conversely; vertex v of input k is vertex (count before k) + v of the result; nothing else is in the result *)
+Theorem C06_merge_is_the_shifted_disjoint_union :
+  forall (T : Type) (O : ops T) (w w' : world (T:=T)) ms,
+    wf w -> step O w (OMerge ms) = Some w' ->
+    exists ins mo, get_meshes w ms = Some ins /\ wobjs w' = wobjs w ++ [mo]
+      /\ (forall el, In el (oedges mo) <-> exists k o e0, nth_error ins k = Some o /\ In e0 (sel_edges o)
+                                             /\ el = map (Z.add (Z.of_nat (count_before ins k))) e0)
+      /\ (forall el, In el (ofaces mo) <-> exists k o e0, nth_error ins k = Some o /\ In e0 (sel_faces o)
+                                             /\ el = map (Z.add (Z.of_nat (count_before ins k))) e0)
+      /\ (forall el, In el (occells mo) <-> exists k o e0, nth_error ins k = Some o /\ In e0 (sel_cells o)
+                                             /\ el = map (Z.add (Z.of_nat (count_before ins k))) e0)
+      /\ (forall k o v, nth_error ins k = Some o -> (v < length (ocells o))%nat ->
+            nth_error (coords O (mheap (wmem w')) mo) (count_before ins k + v)
+            = nth_error (coords O (mheap (wmem w)) o) v)
+      /\ length (ocells mo) = count_before ins (length ins).
+Proof. exact (fun T O => merge_is_the_shifted_disjoint_union O). Qed.
+Print Assumptions C06_merge_is_the_shifted_disjoint_union.
+
+(* what must NOT change: a transform or an edit through object i leaves the whole record of every other object as it is
+   (vertex slots, edges, faces, cells, corner tables, attributes, class); a producer only appends one object *)
+Theorem C06_only_the_target_object_changes :
+  forall (T : Type) (O : ops T) (w w' : world (T:=T)) o i,
+    wf w -> op_ok w o -> step O w o = Some w' -> target o = Some i ->
+    length (wobjs w') = length (wobjs w) /\ forall j, j <> i -> nth_error (wobjs w') j = nth_error (wobjs w) j.
+Proof. exact (fun T O => only_the_target_object_changes O). Qed.
+Print Assumptions C06_only_the_target_object_changes.
+
+Theorem C06_producers_only_append :
+  forall (T : Type) (O : ops T) (w w' : world (T:=T)) o,
+    wf w -> op_ok w o -> step O w o = Some w' -> target o = None -> exists no, wobjs w' = wobjs w ++ [no].
+Proof. exact (fun T O => producers_only_append O). Qed.
+Print Assumptions C06_producers_only_append.
+
+(* ... and a transform changes nothing of its own target but the vertex slots *)
+Theorem C06_transform_keeps_the_rest_of_its_target :
+  forall (T : Type) (O : ops T) (w w' : world (T:=T)) o i f,
+    wf w -> tmap O w o = Some (i, f) -> step O w o = Some w' ->
+    exists so so', nth_error (wobjs w) i = Some so /\ nth_error (wobjs w') i = Some so'
+      /\ oedges so' = oedges so /\ ofaces so' = ofaces so /\ occells so' = occells so /\ ocorn so' = ocorn so
+      /\ oattr so' = oattr so /\ okind so' = okind so /\ length (ocells so') = length (ocells so).
+Proof. exact (fun T O => transform_keeps_the_rest_of_its_target O). Qed.
+Print Assumptions C06_transform_keeps_the_rest_of_its_target.
+
 (* from_arrays: the mesh holds the array's values on buffers of its own *)
 Theorem C06_from_arrays :
   forall (T : Type) (O : ops T) (w w' : world (T:=T)) a e f c cn k,
